@@ -33,6 +33,10 @@ type System[S any, O any] struct {
 	MaxDepth int
 	// Describe renders a state for samples (optional).
 	Describe func(s S) string
+	// Touch (optional) is called after every operation of a replayed path: cheap observer calls whose
+	// possible side effects on hidden state (caches kept by serialisers etc.) thereby become part of
+	// every explored history, although replays skip the full observation.
+	Touch func(s S)
 }
 
 type node[O any] struct {
@@ -86,6 +90,9 @@ func replay[S any, O any](sys *System[S, O], init int, ops []O) (S, string) {
 	for i, o := range ops {
 		if msg, _ := sys.Apply(s, o); msg != "" {
 			return s, fmt.Sprintf("replay divergence at step %d (%s): a transition that was clean before now reports: %s", i, sys.Label(o), msg)
+		}
+		if sys.Touch != nil {
+			sys.Touch(s)
 		}
 	}
 	return s, ""
@@ -162,6 +169,9 @@ func Run[S any, O any](c *ev.Ctx, sys *System[S, O]) Result {
 								s := sys.Inits[init]()
 								for j, o := range full {
 									m, sg := sys.Apply(s, o)
+									if sys.Touch != nil && j < len(full)-1 {
+										sys.Touch(s)
+									}
 									if j == len(full)-1 {
 										if m == "" {
 											m, sg = sys.Check(s)
